@@ -28,7 +28,11 @@ FAULTS = [
     {"recv_fault": (2, "reset"), "chunk": "bytes"},
 ]
 ALPHA = [{"op": "set", "k": "a", "v": b"1", "nr": False}, {"op": "get", "k": "a"}, {"op": "get_many", "ks": ["a", "b"]}, {"op": "incr", "k": "a", "d": 1, "nr": False},
-         {"op": "delete", "k": "a", "nr": False}, {"op": "quit"}, {"op": "set", "k": " bad key", "v": b"1", "nr": False}]
+         {"op": "delete", "k": "a", "nr": False}, {"op": "quit"}, {"op": "set", "k": " bad key", "v": b"1", "nr": False}, {"op": "decr", "k": "a", "d": 1, "nr": False},
+         {"op": "get", "k": "bad key"}]
+MORE = [{"op": "touch", "k": "a", "e": 5, "nr": False}, {"op": "gets", "k": "a"}, {"op": "gat", "k": "a", "e": 5}, {"op": "gats", "k": "a", "e": 5}, {"op": "gets_many", "ks": ["a"]},
+        {"op": "delete_many", "ks": ["a", "b"], "nr": False}, {"op": "version"}, {"op": "flush_all", "d": 0, "nr": False}, {"op": "cas", "k": "a", "v": b"1", "cas": b"1", "nr": False},
+        {"op": "append", "k": "a", "v": b"1", "nr": False}, {"op": "set_many", "items": [("a", b"1"), ("b", b"2")], "nr": False}, {"op": "add", "k": "a", "v": b"1", "nr": False}]
 
 
 def run_seq(ctx, PooledClient, seq, cfg, rng):
@@ -36,6 +40,7 @@ def run_seq(ctx, PooledClient, seq, cfg, rng):
     mx, idle, ign = cfg
     CLOCK[0] = 1000.0
     S = Scripted(rng)
+    S.clock = CLOCK
     pc = PooledClient(("h", 1), socket_module=S.sm, max_pool_size=mx, pool_idle_timeout=idle, ignore_exc=ign, default_noreply=False)
     pool = pc.client_pool
     W = S.world
@@ -69,14 +74,19 @@ def run_seq(ctx, PooledClient, seq, cfg, rng):
     model_evs, obs, desc = [], [], []
     closed_conns = set()
     last_ok = None        # (model conn, time) of the last healthy call
-    for n, (gap, call, fault) in enumerate(seq):
+    for n, item in enumerate(seq):
+        gap, call, fault = item[:3]
+        dur = item[3] if len(item) > 3 else 0
         CLOCK[0] += gap
         now = CLOCK[0]
+        S.duration = dur
         nled = len(W.ledger)
         rec["raised"], rec["client"] = None, None
         S.begin_call(n, dict(fault) if fault else {})
         r = run_call(pc, dict(call))
+        fin = CLOCK[0]               # the clock advanced iff the request reached the (slow) server
         L = W.ledger[nled:]
+        closed_before = set(closed_conns)
         connected_now = False
         for i, e in enumerate(L):
             if e[0] == "connect" and not (i + 1 < len(L) and L[i + 1][0] == "fault" and L[i + 1][2][0] == "connect"):
@@ -87,7 +97,7 @@ def run_seq(ctx, PooledClient, seq, cfg, rng):
                 closed_order.append(connmap[e[1]])
         io_real = [e[1] for e in L if e[0] in ("sendall", "recv") and e[1] in connmap]
         io = connmap[io_real[0]] if io_real else (max(connmap.values()) if connected_now else None)
-        desc.append({"gap": gap, "call": call["op"], "fault": repr(fault) if fault else None, "result": r[:40], "inner_raised": rec["raised"], "conn": io})
+        desc.append({"gap": gap, "duration": dur, "call": call["op"], "fault": repr(fault) if fault else None, "result": r[:40], "inner_raised": rec["raised"], "conn": io})
         case = {"max_pool_size": mx, "pool_idle_timeout": idle, "ignore_exc": ign, "sequence": desc}
         # ---- monitor -------------------------------------------------------------------------------------
         if len(pool.used) != 0:
@@ -110,13 +120,14 @@ def run_seq(ctx, PooledClient, seq, cfg, rng):
             last_ok = None
         else:
             if io is not None:
-                if last_ok is not None and last_ok[0] not in closed_conns and (idle == 0 or now - last_ok[1] <= idle) and io != last_ok[0]:
+                if last_ok is not None and last_ok[0] not in closed_before and (idle == 0 or now - last_ok[1] <= idle) and io != last_ok[0]:
+                    # last_ok[1] is the time the previous healthy call was *released*: a slow call is not idle time
                     ctx.violation("a healthy idle connection was not reused", dict(case, expected=last_ok[0], used=io), tags=["not-reused"])
                     return None
                 if last_ok is not None and idle != 0 and now - last_ok[1] > idle and (io == last_ok[0] or last_ok[0] not in closed_conns):
                     ctx.violation("a connection idle for longer than pool_idle_timeout was reused or left open", dict(case, conn=last_ok[0]), tags=["idle-not-expired"])
                     return None
-                last_ok = (io, now)
+                last_ok = (io, fin)
         # ---- classification for the model -----------------------------------------------------------------
         touched = any(e[0] in ("sendall", "recv", "connect", "socket", "getaddrinfo") for e in L)
         if is_quit:
@@ -128,7 +139,7 @@ def run_seq(ctx, PooledClient, seq, cfg, rng):
         else:
             swallowed = not r.startswith("exc:")
             body = ("swal" if swallowed else "fail") + ("1" if connected_now else "0")
-        model_evs.append(f"{int(now - 1000)}:{body}")
+        model_evs.append(f"{int(now - 1000)}:{int(fin - 1000)}:{body}")
         obs.append(f"{rec['client'] if rec['client'] is not None else '-'}/{io if io is not None else '-'}")
     free = ",".join(f"{clients[id(o)][0]}/{connmap[o.sock.id] if o.sock is not None and o.sock.id in connmap else '-'}" for o in pool.free)
     open_socks = sorted(c.id for c in W.conns if not c.closed)
@@ -160,14 +171,22 @@ def main(argv):
     if ctx.thorough:
         tiny = [(g, c, f) for g in (0, 11) for c in ALPHA[:2] + ALPHA[5:7] for f in (FAULTS[0], FAULTS[2], FAULTS[3])]
         seqs += list(itertools.product(tiny, repeat=3))
+    # calls that take time: checkout at t, release at t + duration (duration may exceed the idle timeout)
+    slow = [(g, c, f, d) for g in (0, 9, 10, 11) for c in ALPHA[:2] for f in (None, FAULTS[3]) for d in (5, 50)]
+    seqs += [(a, b) for a in slow for b in [(g, ALPHA[1], None, 0) for g in (0, 9, 10, 11, 20)]]
+    seqs += [(a, b, c) for a in slow[::3] for b in slow[1::4] for c in [(10, ALPHA[0], None, 0), (11, ALPHA[0], None, 0)]]
+    for c in MORE:
+        for f in FAULTS:
+            seqs.append(((0, ALPHA[0], None), (5, c, f), (10, ALPHA[1], None), (11, ALPHA[1], None)))
     for _ in range(6000 if ctx.thorough else 800):
-        seqs.append(tuple((rng.choice(gaps + [0, 0, 3]), rng.choice(ALPHA + OPS[:12]), rng.choice(FAULTS + [None] * 6)) for _ in range(rng.randrange(3, 11))))
+        seqs.append(tuple((rng.choice(gaps + [0, 0, 3]), rng.choice(ALPHA + MORE + OPS[:12]), rng.choice(FAULTS + [None] * 6), rng.choice([0, 0, 0, 4, 30]))
+                          for _ in range(rng.randrange(3, 11))))
     n = 0
     for i, seq in enumerate(seqs):
         cfg = cfgs[i % len(cfgs)]
         res = run_seq(ctx, PooledClient, seq, cfg, rng)
         n += 1
-        ctx.case((cfg, repr(seq)), sample={"cfg": cfg, "calls": [(g, c["op"], repr(f)) for g, c, f in seq]} if n in (40, 5000) else None)
+        ctx.case((cfg, repr(seq)), sample={"cfg": cfg, "calls": [(it[0], it[1]["op"], repr(it[2]), (it[3] if len(it) > 3 else 0)) for it in seq]} if n in (40, 5000) else None)
         ctx.count(f"len={min(len(seq), 4)}{'+' if len(seq) >= 4 else ''}")
         if res is None:
             continue
@@ -176,7 +195,7 @@ def main(argv):
             ctx.count("body:" + e.split(":")[1])
         mx, idle, ign = cfg
         lines.append(f"pooled cfg={mx or 2 ** 31},{idle} evs={','.join(model_evs) or '-'}")
-        metas.append(({"cfg": cfg, "calls": [(g, c["op"], repr(f)) for g, c, f in seq], "events": model_evs},
+        metas.append(({"cfg": cfg, "calls": [(it[0], it[1]["op"], repr(it[2]), (it[3] if len(it) > 3 else 0)) for it in seq], "events": model_evs},
                       f"ok obs=[{','.join(obs)}] free=[{free}] closed=[{','.join(map(str, closed_order))}] out=0"))
     if ctx.lean.build_ok:
         for (case, want), o in zip(metas, ctx.driver.batch(lines)):
